@@ -54,6 +54,14 @@ def gen_cases(rng, tier):
             else:
                 other = rng.choice(list(ctx.units))
                 ops.append(["q_conv", f"{a}@{u}", other, MODE])
+        # amounts with more significant digits than any default precision,
+        # held as either kind of Decimal or as Fraction: no rounding anywhere
+        for kind in ("P:", "", "F:", "P:"):
+            u = rng.choice([x for x in lin if ctx.quantum(x) is None] or lin)
+            v = rng.choice(ctx.linear_units(ctx.units[u]["cls"]))
+            a = kind + _qty.rat(_qty.long_decimal(rng))
+            ops.append(["q_conv", f"{a}@{u}", v, MODE])
+            ops.append(["q_convback", f"{a}@{u}", v, MODE])
         # targeted: every unit defined by a term or derived from base units,
         # to and from every other unit of its type (its scale is the product
         # along the chain: reduction and normalisation of the definition)
